@@ -1161,3 +1161,52 @@ def declared_types_keep_values(ctx, rel, rule="R0.declared-c-types"):
     ctx.ob(rule, rel, "<module>", "no typed argument is handed to a narrower typed parameter", not extra,
            (f"{extra[0]}: the value is narrowed / changes sign at the call without a check" if extra else ""), 1)
     return n
+
+
+# ---------------------------------------------------------------------------
+# None told apart from the other falsy values: against the reference
+
+
+def none_tested_params(tree):
+    """{qualname: [parameters that the function compares with None]} - the inventory side of `none_distinction_kept`"""
+    from . import pyxfront
+    out = {}
+    for q, f in pyxfront.iter_funcs(tree):
+        ps = {a.arg for a in f.args.posonlyargs + f.args.args + f.args.kwonlyargs}
+        hit = sorted({x.left.id for x in ast.walk(f) if isinstance(x, ast.Compare) and len(x.ops) == 1 and isinstance(x.ops[0], (ast.Is, ast.IsNot))
+                      and isinstance(x.left, ast.Name) and x.left.id in ps and isinstance(x.comparators[0], ast.Constant) and x.comparators[0].value is None})
+        if hit:
+            out[q] = hit
+    return out
+
+
+def none_distinction_kept(ctx, rel, rule="R0.none-still-told-apart"):
+    """a parameter that the reference function compared with None (None = 'not given', next to legal falsy values such as False, 0, an
+    empty list) is still compared with None - or handed on, unchanged, to something that can do it.  `if flag:` in place of
+    `if flag is None: .. elif not flag: ..` folds the explicit False into the default."""
+    from . import localnames
+    s = ctx.src(rel)
+    ref = (localnames.table().get(rel, {}).get("__inventory__") or {}).get("none_tested")
+    if ref is None:
+        return 0
+    now = none_tested_params(s.tree)
+    n = 0
+    for q, ps in sorted(ref.items()):
+        f = dict.get(s.funcs, q)
+        if f is None or q in s.outside_subset:
+            continue
+        params = {a.arg for a in f.args.posonlyargs + f.args.args + f.args.kwonlyargs}
+        lost = []
+        for p_ in ps:
+            if p_ not in params or p_ in now.get(q, []):
+                continue
+            handed = any(isinstance(c, ast.Call) and any(isinstance(a, ast.Name) and a.id == p_ for a in list(c.args) + [k.value for k in c.keywords])
+                         for c in ast.walk(f))
+            used = any(isinstance(x, ast.Name) and x.id == p_ and isinstance(x.ctx, ast.Load) for x in ast.walk(f))
+            if used and not handed:
+                lost.append(p_)
+        n += 1
+        ctx.ob(rule, rel, q, f"{', '.join(ps)}: still compared with None", not lost,
+               f"`{lost[0] if lost else ''}` was compared with None (None = not given) and is now only used by its truth or value: a legal falsy "
+               "argument (False, 0, an empty container) is treated like a missing one", f.lineno)
+    return n
